@@ -560,6 +560,9 @@ func C07() int {
 				pv := JudgeBash(libMain, o)
 				if pv.Symptom != "" && pv.Symptom != "undefined" {
 					pv = confirm(libMain, o, pv)
+					if pv.Symptom == "" {
+						return // a sandbox kill that did not repeat (counted in common.go)
+					}
 					r.Fail("skeleton="+name+" as=imported-file symptom=run-"+pv.Symptom, fmt.Sprintf("accepted scope skeleton `%s` misbehaves when run as an imported file: %s (%s)", name, pv.Symptom, pv.Detail), progReplay(pv, map[string]string{"src/lib.tsh": src}))
 				}
 			}
@@ -575,6 +578,9 @@ func C07() int {
 				pv := JudgeBash(prog, ProgOpts{})
 				if pv.Symptom != "" && pv.Symptom != "undefined" {
 					pv = confirm(prog, ProgOpts{}, pv)
+					if pv.Symptom == "" {
+						return // a sandbox kill that did not repeat (counted in common.go)
+					}
 					r.Fail("skeleton="+name+" symptom=run-"+pv.Symptom, fmt.Sprintf("accepted scope skeleton `%s` misbehaves when run: %s (%s)", name, pv.Symptom, pv.Detail), progReplay(pv, nil))
 				}
 			}
@@ -614,7 +620,7 @@ func C07() int {
 	r.Set("exhaustive", !capped)
 	r.Set("rule", "every block-structure skeleton with n items in total, nesting depth <= 3, <= 3 items per block over {define x, use x, assign x, break, continue, return, call f, call g, if, for x:=.., for i,x := range, for j:=.., switch(2 branches), func f(x), func f() int, func g(), func g() int without final return}; an independent scoper decides accept/reject/unspecified from the rules C07 states; both targets must agree with it; accepted programs are also executed against the reference interpreter. Plus a two-file import-boundary table. Distinct by source text.")
 	r.Assumef("unspecified and therefore skipped: break inside a switch outside a loop, returning a value from a result-less function (typing, C06), value-returning functions ending in a compound statement")
-	return r.Finish()
+	return finish(r)
 }
 
 func transpileOnlyReplay() string {
